@@ -21,6 +21,9 @@
       the handles of the closures that succeeded and returns the error; otherwise the
       handles are added to p.cleanup.
 
+  Which tasks belong to which proxy is kept per task (`own`): a task is a closure of the
+  proxy's running call (`call`) or a handle in its cleanup list (`cleanup`).
+
   `fixedPx = true` is the code as it is now (fix: a second RealizeDescriptions on the same
   proxy appends to p.cleanup, Close empties it).  `fixedPx = false` is the code before: the
   second call overwrote p.cleanup (the first call's handles could no longer be closed by
@@ -31,22 +34,27 @@ import ClairModel.Model.ArenaFd
 namespace ClairModel.ArenaProxy
 open ClairModel.Arena ClairModel.ArenaFd
 
+inductive Role where
+  | call        -- a closure of the proxy's running RealizeDescriptions call
+  | cleanup     -- a handle in p.cleanup
+deriving DecidableEq, Repr
+
 /-- One RealizeDescriptions call in progress. -/
 structure Call where
   descs : List Nat            -- the keys asked for, in order
   limit : Nat                 -- errgroup limit
-  tasks : List Nat := []      -- arena task of descs[i], for the descriptions started so far
+  started : Nat := 0          -- descriptions started so far (the closures are the tasks `own` gives the proxy)
   dead : Bool := false        -- the group's context is cancelled
 deriving DecidableEq, Repr
 
 structure Proxy where
-  cleanup : List Nat := []    -- tasks whose closers p.cleanup holds
   call : Option Call := none
 deriving DecidableEq, Repr
 
 structure PState where
   f : FState := {}
   px : List Proxy := []
+  own : Nat → Option (Nat × Role) := fun _ => none   -- task ↦ (proxy, what it is to the proxy)
   lost : List Nat := []       -- ghost: handles dropped from a cleanup list without being closed
 
 def pinit : PState := {}
@@ -90,44 +98,60 @@ def isDone (a : Arena.State) (t : Nat) : Bool :=
   | some (.holding _ _) | some .failed | some .closed => true
   | _ => false
 
+/-- The tasks that are `ro` to proxy `p`, in the order they were started. -/
+def tasksOf (s : PState) (p : Nat) (ro : Role) : List Nat :=
+  (List.range s.f.a.tasks.length).filter fun t => s.own t == some (p, ro)
+
 def runBase (f : FState) (ops : List Op) : FState :=
   ops.foldl (fun f op => (fstep f (.base op)).1) f
 
 /-- `g.Go` in RealizeDescriptions' loop: start descriptions while a slot is free. -/
-def refill (f : FState) (c : Call) : Nat → FState × Call
-  | 0 => (f, c)
+def refill (s : PState) (p : Nat) (c : Call) : Nat → PState × Call
+  | 0 => (s, c)
   | fuel + 1 =>
-    match c.descs[c.tasks.length]? with
+    match c.descs[c.started]? with
     | some k =>
-      if (c.tasks.filter fun t => !isDone f.a t).length < c.limit then
-        refill (fstep f (.base (.spawn k))).1 { c with tasks := c.tasks ++ [f.a.tasks.length] } fuel
-      else (f, c)
-    | none => (f, c)
+      if ((tasksOf s p .call).filter fun t => !isDone s.f.a t).length < c.limit then
+        refill { s with f := (fstep s.f (.base (.spawn k))).1,
+                        own := upd s.own s.f.a.tasks.length (some (p, .call)) }
+          p { c with started := c.started + 1 } fuel
+      else (s, c)
+    | none => (s, c)
 
 /-- What the errgroup of one call does, given the state of its tasks. -/
-def settleCall (f : FState) (c : Call) : FState × Call :=
-  let dead := c.dead || c.tasks.any (isFailed f.a)
-  let f1 := if dead then runBase f ((c.tasks.filter (isWaiting f.a)).map .cancel) else f
-  refill f1 { c with dead := dead } c.descs.length
+def settleCall (s : PState) (p : Nat) (c : Call) : PState × Call :=
+  let ts := tasksOf s p .call
+  let dead := c.dead || ts.any (isFailed s.f.a)
+  let s1 := if dead then { s with f := runBase s.f ((ts.filter (isWaiting s.f.a)).map .cancel) } else s
+  refill s1 p { c with dead := dead } c.descs.length
 
-/-- `g.Wait` has returned? Then the call ends. -/
-def finishCall (fixedPx : Bool) (f : FState) (p : Proxy) (c : Call) (lost : List Nat) :
-    FState × Proxy × List Nat :=
-  if c.tasks.length = c.descs.length ∧ c.tasks.all (isDone f.a) then
-    if c.tasks.any (isFailed f.a) then
-      (runBase f ((c.tasks.filter (isHolding f.a)).map .close), { p with call := none }, lost)
-    else if fixedPx then (f, { cleanup := p.cleanup ++ c.tasks, call := none }, lost)
-    else (f, { cleanup := c.tasks, call := none }, lost ++ p.cleanup.filter (isHolding f.a))
-  else (f, { p with call := some c }, lost)
+/-- `own` after the handles that were `ro` to `p` have been given up or changed hands. -/
+def relabel (own : Nat → Option (Nat × Role)) (p : Nat) (ro : Role) (to : Option (Nat × Role)) :
+    Nat → Option (Nat × Role) :=
+  fun t => if own t = some (p, ro) then to else own t
+
+/-- `g.Wait` has returned? Then the call ends: (state, the call if it goes on). -/
+def finishCall (fixedPx : Bool) (s : PState) (p : Nat) (c : Call) : PState × Option Call :=
+  let ts := tasksOf s p .call
+  if c.started = c.descs.length ∧ ts.all (isDone s.f.a) then
+    if ts.any (isFailed s.f.a) then
+      -- RealizeDescriptions closes the handles of the closures that succeeded
+      ({ s with f := runBase s.f ((ts.filter (isHolding s.f.a)).map .close),
+                own := relabel s.own p .call none }, none)
+    else if fixedPx then ({ s with own := relabel s.own p .call (some (p, .cleanup)) }, none)
+    else
+      ({ s with own := relabel (relabel s.own p .cleanup none) p .call (some (p, .cleanup)),
+                lost := s.lost ++ (tasksOf s p .cleanup).filter (isHolding s.f.a) }, none)
+  else (s, some c)
 
 def settleProxy (fixedPx : Bool) (s : PState) (i : Nat) : PState :=
   match s.px[i]? with
   | some p =>
     match p.call with
     | some c =>
-      let (f1, c1) := settleCall s.f c
-      let (f2, p2, lost2) := finishCall fixedPx f1 p c1 s.lost
-      { f := f2, px := s.px.set i p2, lost := lost2 }
+      let (s1, c1) := settleCall s i c
+      let (s2, c2) := finishCall fixedPx s1 i c1
+      { s2 with px := s2.px.set i { call := c2 } }
     | none => s
   | none => s
 
@@ -135,10 +159,7 @@ def settleAll (fixedPx : Bool) (s : PState) : PState :=
   (List.range s.px.length).foldl (settleProxy fixedPx) s
 
 /-- Is task `t` one of a proxy's (a closure of a running call, or a handle in a cleanup list)? -/
-def owned (s : PState) (t : Nat) : Bool :=
-  s.px.any fun p => p.cleanup.contains t || (match p.call with
-    | some c => c.tasks.contains t
-    | none => false)
+def owned (s : PState) (t : Nat) : Bool := (s.own t).isSome
 
 /-- Transitions the scheduler cannot take on its own for a proxy's task: its handle is closed
     by the proxy, and its context is the group's. -/
@@ -150,29 +171,29 @@ def reserved (s : PState) : FOp → Bool
 def pstepG (fixedPx : Bool) (s : PState) : POp → PState × POut
   | .base op =>
     if reserved s op then (s, .bad) else
-    let (f', out) := fstep s.f op
-    (settleAll fixedPx { s with f := f' }, .out out)
+    (settleAll fixedPx { s with f := (fstep s.f op).1 }, .out (fstep s.f op).2)
   | .pnew => ({ s with px := s.px ++ [{}] }, .proxy s.px.length)
   | .realize p limit ks =>
     match s.px[p]? with
     | some q =>
       if q.call.isSome || limit == 0 then (s, .bad) else
-      (settleAll fixedPx { s with px := s.px.set p { q with call := some { descs := ks, limit := limit } } }, .started)
+      (settleAll fixedPx { s with px := s.px.set p { call := some { descs := ks, limit := limit } } }, .started)
     | none => (s, .bad)
   | .pcancel p =>
     match s.px[p]? with
     | some q =>
       match q.call with
-      | some c => (settleAll fixedPx { s with px := s.px.set p { q with call := some { c with dead := true } } }, .cancelled)
+      | some c => (settleAll fixedPx { s with px := s.px.set p { call := some { c with dead := true } } }, .cancelled)
       | none => (s, .cancelled)
     | none => (s, .bad)
   | .pclose p =>
     match s.px[p]? with
     | some q =>
       if q.call.isSome then (s, .bad)
-      else if q.cleanup.all (isHolding s.f.a) then
-        ({ s with f := runBase s.f (q.cleanup.map .close),
-                  px := s.px.set p { q with cleanup := if fixedPx then [] else q.cleanup } }, .closed q.cleanup.length)
+      else if (tasksOf s p .cleanup).all (isHolding s.f.a) then
+        ({ s with f := runBase s.f ((tasksOf s p .cleanup).map .close),
+                  own := if fixedPx then relabel s.own p .cleanup none else s.own },
+         .closed (tasksOf s p .cleanup).length)
       else (s, .panic)
     | none => (s, .bad)
 
